@@ -153,11 +153,14 @@ package common
 //@   ensures r <==> *h == Hash{}
 //@ trusted func (a Address) Equal(anotherAdd Address) (r bool)
 //@   ensures r <==> a == anotherAdd
+// the array a byte string of the right length stands for (inverse of Bytes())
+//@ spec func hashOfContent(c Content) Hash
+//@ spec func addrOfContent(c Content) Address
 //@ trusted func (h Hash) Bytes() (r []byte)
-//@   ensures fresh(r) && len(r) == 32 && content(r) == content(h)
+//@   ensures fresh(r) && len(r) == 32 && content(r) == content(h) && hashOfContent(content(r)) == h
 //@   ensures forall i int :: 0 <= i && i < 32 ==> r[i] == h[i]
 //@ trusted func (a Address) Bytes() (r []byte)
-//@   ensures fresh(r) && len(r) == 20 && content(r) == content(a)
+//@   ensures fresh(r) && len(r) == 20 && content(r) == content(a) && addrOfContent(content(r)) == a
 //@   ensures forall i int :: 0 <= i && i < 20 ==> r[i] == a[i]
 //@ trusted func BytesToHash(b []byte) (h Hash)
 //@   ensures len(b) == 32 ==> content(h) == content(b)
